@@ -53,6 +53,8 @@ typedef struct {
       { { P(1), E }, { POP, E }, { PW, E } }, 0 },                                    \
     { KN " SPSC push|poptimed,pop", 0, K, ABT_POOL_ACCESS_SPSC, 0, 2,                \
       { { P(0), P(1), E }, { PT, POP, E } }, 0 },                                     \
+    { KN " SPSC init1 push,push2|pop,pop2,pop", Q, K, ABT_POOL_ACCESS_SPSC, 1, 2,    \
+      { { P(1), P2(2, 3), E }, { POP, POP2, POP } }, 0 },                             \
     { KN " MPMC init2 remove(last)|pop|push", 0, K, ABT_POOL_ACCESS_MPMC, 2, 3,      \
       { { RM(1), E }, { POP, E }, { P(2), E } }, 0 },                                 \
     { KN " MPMC init1 pop2|pop|push2,size", 0, K, ABT_POOL_ACCESS_MPMC, 1, 3,        \
